@@ -311,11 +311,16 @@ func boundShifts(q *Term) map[*Term][]bshift {
 // candidatesFor lists the instantiation terms for bound variable b of quantifier q.
 func candidatesFor(q, b *Term, cands map[string]map[*Term]bool) []*Term {
 	set := map[*Term]bool{}
-	if strings.HasSuffix(strings.SplitN(b.Name, "!", 2)[0], "SK") {
+	if bn := strings.SplitN(b.Name, "!", 2)[0]; strings.HasSuffix(bn, "SK") {
 		// a bound variable named ...SK (in a `use forall` schema): instantiated only at skolem
-		// constants, cand(e) terms and inst hints - never at the index terms of the obligation
+		// constants, cand(e) terms and inst hints - never at the index terms of the obligation;
+		// ...GSK: only at the skolem constants of the goal itself
+		class := "|sk"
+		if strings.HasSuffix(bn, "GSK") {
+			class = "|gsk"
+		}
 		var l []*Term
-		for c := range cands[b.Key+"|sk"] {
+		for c := range cands[b.Key+class] {
 			if c.S == b.S {
 				l = append(l, c)
 			}
@@ -540,6 +545,16 @@ func (w *World) Prepare(o *Obligation, lemmaMax int) ([]*Term, *prep) {
 	addHintCands(cands, hints.Insts)
 	// pre-pass: create the skolem constants of the goal / existential hypotheses; they are
 	// instantiation candidates for bound variables of the same class
+	// (the goal's own skolem constants first: they are additionally registered under "|gsk", the
+	// candidate class of schema variables named ...GSK)
+	for _, f := range base[goalStart:] {
+		p.inst(f, true, map[string]map[*Term]bool{})
+	}
+	for q, m := range p.skolems {
+		for _, b := range q.Bound {
+			addCand(cands, b.Key+"|gsk", m[b])
+		}
+	}
 	for _, f := range base {
 		p.inst(f, true, map[string]map[*Term]bool{})
 	}
